@@ -1372,6 +1372,9 @@ func (n *RegexNode) reduceSingleLetterAndNestedAlternations() {
 
 				prev.T = NtSet
 				prev.Set = prevCharClass
+				// merging may have put the set into its negated normal form,
+				// into which nothing further can be merged
+				lastNodeCannotMerge = !prevCharClass.IsMergeable()
 				if prev.Options&IgnoreCase != 0 {
 					prev.Options &= ^IgnoreCase
 				}
